@@ -43,3 +43,6 @@ CLAIMS = {
                      "well-formed. Correspondence run + monitor tie the model to the contract and exhibit failing inputs.",
                 note=NOTE, technique=TECH),
 }
+
+for _p in PROPS.values():
+    _p.setdefault("cover_files", ['contracts/netmap/', 'common/witness.go'])
